@@ -282,3 +282,101 @@ func lenienceFallible(w *World, p *packages.Package) map[*types.Func]bool {
 }
 
 var _ = token.NoPos
+
+// RC7d (C21): list surgery on the caller's uninterpreted options is never left half-done.
+// internal.RemoveOption is handed a slice that aliases the options message's own
+// UninterpretedOption list. If it removes an element by appending into a shortened view of that
+// slice (`append(uo[:i], uo[i+1:]...)`, no capacity limit), the caller's backing array is shifted
+// in place while the message still holds the old slice header; every path from such a call to a
+// return must then store the result back into the message, otherwise — in lenient mode a rejected
+// pseudo-option reports nothing and returns early — the message is left with the rejected option
+// gone and its last option duplicated ("never leaves an options message half-populated", "keeps
+// every option it cannot interpret verbatim"). A RemoveOption that copies (three-index slice,
+// slices.Delete on a clone, a fresh make) needs no such discipline from its callers.
+func rc7dInPlaceRemoval(w *World) {
+	w.rule("RC7d")
+	ip := w.pkg("internal")
+	op := w.pkg("options")
+	rem := w.fn("internal", "RemoveOption")
+	if ip == nil || op == nil || rem == nil {
+		return
+	}
+	iinfo := ip.TypesInfo
+	// (i) does RemoveOption shift its argument's storage in place?
+	var param types.Object
+	if rem.Decl.Type.Params.NumFields() > 0 && len(rem.Decl.Type.Params.List[0].Names) > 0 {
+		param = iinfo.Defs[rem.Decl.Type.Params.List[0].Names[0]]
+	}
+	inPlace := ""
+	ast.Inspect(rem.Decl.Body, func(x ast.Node) bool {
+		c, ok := x.(*ast.CallExpr)
+		if !ok || !isBuiltinCall(iinfo, c, "append") || len(c.Args) < 2 {
+			return true
+		}
+		se, ok := ast.Unparen(c.Args[0]).(*ast.SliceExpr)
+		if !ok || se.Slice3 {
+			return true
+		}
+		if id, ok := ast.Unparen(se.X).(*ast.Ident); ok && iinfo.Uses[id] == param && se.High != nil {
+			inPlace = types.ExprString(c) + " at " + w.pos(c.Pos())
+		}
+		return true
+	})
+	if inPlace == "" {
+		w.ok("remove-copies|internal.RemoveOption", rem.Decl.Pos(), "RemoveOption never appends into a shortened view of its argument: the caller's list is not modified in place")
+		return
+	}
+	// (ii) callers must commit on every path
+	oinfo := op.TypesInfo
+	n := 0
+	for _, b := range allFuncBodies(op) {
+		if b.Lit != nil {
+			continue
+		}
+		var calls []*ast.CallExpr
+		ast.Inspect(b.Body, func(x ast.Node) bool {
+			if c, ok := x.(*ast.CallExpr); ok {
+				if f := callee(oinfo, c); f != nil && f == rem.Obj {
+					calls = append(calls, c)
+				}
+			}
+			return true
+		})
+		if len(calls) == 0 {
+			continue
+		}
+		n++
+		isCall := func(x ast.Node) bool {
+			c, ok := x.(*ast.CallExpr)
+			if !ok {
+				return false
+			}
+			f := callee(oinfo, c)
+			return f != nil && f == rem.Obj
+		}
+		isStore := func(x ast.Node) bool {
+			as, ok := x.(*ast.AssignStmt)
+			if !ok {
+				return false
+			}
+			for _, l := range as.Lhs {
+				if s, ok := ast.Unparen(l).(*ast.SelectorExpr); ok && s.Sel.Name == "UninterpretedOption" {
+					return true
+				}
+			}
+			return false
+		}
+		_, bad := mustFollow(oinfo, b.Body, isCall, isStore)
+		key := "in-place-removal-committed|" + b.Label
+		if len(bad) == 0 {
+			w.ok(key, b.Decl.Pos(), "every path from a RemoveOption call to a return stores the result back into the options message")
+		} else {
+			var where []string
+			for _, e := range bad {
+				where = append(where, w.pos(e.Pos))
+			}
+			w.violation(key, b.Decl.Pos(), "internal.RemoveOption shifts the caller's list in place ("+inPlace+"), and "+b.Label+" can return (at "+strings.Join(where, ", ")+") after such a call without storing the result back into the options message: the message keeps its old length over the shifted array — the removed (rejected) option is gone and the last option is listed twice")
+		}
+	}
+	w.floor("callers of internal.RemoveOption in package options", n, 1)
+}
